@@ -3,6 +3,7 @@
   About evalCands / evalValues / evalRule / matchRule / setvarEval of Coraza/Model/Engine.lean.
 -/
 import Coraza.Properties.C01
+import Coraza.Proofs.Digits
 open Coraza Coraza.Engine
 
 /-- what one match does to the transaction: MATCHED_VAR/MATCHED_VAR_NAME/MATCHED_VARS are
@@ -160,6 +161,57 @@ theorem C09_disruptive_once (env : Env) (rules : List Rule) (r : Rule) (tx : Tx)
   split
   · simp [matchRule]
   · rfl
+
+/-! ## setvar arithmetic adds up exactly -/
+
+/-- the action `setvar:tx.k=+n` with a literal n -/
+def addLit (n : Nat) : SetOp := .assign [.text (0x2b :: natToBytes n)]
+
+/-- **C09_add_step**: if TX:k holds the decimal text of `cur`, one execution of `setvar:tx.k=+n`
+    leaves the decimal text of `cur + n` (no digit is lost in rendering and re-parsing), for all
+    numbers up to the int64 range the code computes in. -/
+theorem C09_add_step (tx : Tx) (k : Bytes) (cur n : Nat) (hb : cur + n ≤ 9223372036854775807)
+    (hcur : (tx.txc.get (lower k)).head? = some (natToBytes cur)) :
+    (setvarEval tx k (addLit n)).txc.get (lower k) = [natToBytes (cur + n)] := by
+  have hn1 := (natToBytes_spec n).2.1
+  have hc1 := (natToBytes_spec cur).2.1
+  unfold setvarEval addLit
+  simp only [expand, List.flatMap_cons, expandTok, List.flatMap_nil, List.append_nil, lower_idem]
+  have e1 : ((0x2b : UInt8) == 0x2b || (0x2b : UInt8) == 0x2d) = true := by decide
+  have e2 : (natToBytes n).isEmpty = false := by cases h : natToBytes n <;> simp_all
+  have e3 : (natToBytes cur).isEmpty = false := by cases h : natToBytes cur <;> simp_all
+  simp only [e1, if_true, e2, Bool.false_eq_true, if_false, atoiOpt_natToBytes n (by omega), hcur, Option.getD_some, e3,
+    atoiOpt_natToBytes cur (by omega)]
+  have e4 : ((0x2b : UInt8) == 0x2b) = true := by decide
+  simp only [e4, if_true]
+  have e5 : intToBytes ((cur : Int) + (n : Int)) = natToBytes (cur + n) := by
+    unfold intToBytes
+    have : ¬ ((cur : Int) + (n : Int) < 0) := by omega
+    simp only [this, if_false]
+    congr 1
+  rw [e5]
+  exact CMap.get_set1 _ _ _
+
+/-- **C09_sum**: m executions of `setvar:tx.k=+n` (one per matched value, by C09_once_per_match)
+    turn `cur` into `cur + m·n`: the score an anomaly-scoring rule set compares with its threshold
+    is exactly the sum over all matches. -/
+theorem C09_sum (k : Bytes) (n : Nat) (m : Nat) (tx : Tx) (cur : Nat) (hb : cur + m * n ≤ 9223372036854775807)
+    (hcur : (tx.txc.get (lower k)).head? = some (natToBytes cur)) :
+    (((List.replicate m (addLit n)).foldl (fun t a => setvarEval t k a) tx).txc.get (lower k)).head? =
+      some (natToBytes (cur + m * n)) := by
+  induction m generalizing tx cur with
+  | zero => simpa using hcur
+  | succ m ih =>
+    simp only [List.replicate_succ, List.foldl_cons]
+    have hstep := C09_add_step tx k cur n (by rw [Nat.succ_mul] at hb; omega) hcur
+    have := ih (setvarEval tx k (addLit n)) (cur + n) (by rw [Nat.succ_mul] at hb; omega) (by rw [hstep]; rfl)
+    rw [this]
+    congr 2
+    rw [Nat.succ_mul]; omega
+
+/-- non-vacuity: score 3, five matches of +2 -/
+example : (((List.replicate 5 (addLit 2)).foldl (fun t a => setvarEval t [0x73] a)
+    (setvarEval {} [0x73] (.assign [.text [0x33]]))).txc.get [0x73]).head? = some [0x31, 0x33] := by decide
 
 /-! ## non-vacuity -/
 example : (setvarEval {} [0x73] (.assign [.text [0x2b, 0x35]])).txc.get [0x73] = [[0x35]] := by decide
